@@ -523,7 +523,7 @@ const TEXT_ALPHA: &[&str] = &["a", "Z", "0", "_", " ", "é", "漢", "😀", "\u{
 fn gen_text(rng: &mut Rng, n: usize, nul: bool) -> String {
     let mut s = String::new();
     while s.len() < n {
-        s.push_str(rng.pick(TEXT_ALPHA));
+        s.push_str(*rng.pick(TEXT_ALPHA));
     }
     while s.len() > n && s.is_char_boundary(n) {
         s.truncate(n);
@@ -631,16 +631,16 @@ fn main() {
             6 => {
                 rec.count("case:ident-bad-first");
                 let mut s = gen_ident(&mut rng, n);
-                s.replace_range(0..1, rng.pick(BAD_FIRST));
+                s.replace_range(0..1, *rng.pick(BAD_FIRST));
                 s
             }
             7..=8 => {
                 rec.count("case:ident-bad-later");
                 let mut s = gen_ident(&mut rng, n.max(2));
                 let i = rng.range(1, s.len() as u64 - 1) as usize;
-                s.replace_range(i..i + 1, rng.pick(BAD_REST));
+                s.replace_range(i..i + 1, *rng.pick(BAD_REST));
                 if rng.chance(1, 4) {
-                    s.push_str(rng.pick(BAD_REST));
+                    s.push_str(*rng.pick(BAD_REST));
                 }
                 s
             }
